@@ -33,13 +33,24 @@ def handle (S : Schema) (line : String) : String :=
     else if !S.extendsCore then "bad core-schema-differs"
     else s!"ok {S.ctors.size} {S.ifaces.size} core={coreSchema.ctors.size}/{coreSchema.ifaces.size}"
   | ["dec", t, h] =>
-    match parseTy t with
-    | some ty => decOp S ty h
-    | none => "bad-op"
+    -- `C12@34`: decode constructor 12 whose generic fields hold an object of constructor 34
+    match t.splitOn "@" with
+    | [t0] =>
+      match parseTy t0 with
+      | some ty => decOp S ty h
+      | none => "bad-op"
+    | [t0, g] =>
+      match parseTy t0, g.toNat? with
+      | some ty, some c => decOp { S with generic := some c } ty h
+      | _, _ => "bad-op"
+    | _ => "bad-op"
   | ["enc", t, sx] =>
-    match parseTy t, parseValue sx with
+    let (t0, S') := match t.splitOn "@" with
+      | [a, g] => (a, match g.toNat? with | some c => { S with generic := some c } | none => S)
+      | _ => (t, S)
+    match parseTy t0, parseValue sx with
     | some ty, some v =>
-      match encGo S ty v with
+      match encGo S' ty v with
       | some e => toHex e
       | none => "none"
     | _, _ => "bad-op"
